@@ -174,7 +174,7 @@ def canonical_embed(prog, r, args):
         if j < len(args):
             res1["p%d" % j] = args[j]
         elif p["default"] is not None:
-            res1["p%d" % j] = kvalue.Const(*p["default"])
+            res1["p%d" % j] = kvalue.default_value(p)
     rows = []
     deps1 = {}
 
@@ -323,7 +323,7 @@ def make_config(rng, prog, how, tmpdir):
 def run(pid, tier, seed, res, p_sub=None, p_flag=None, only=None):
     import os
     rng = random.Random(seed * 15485863 + 3)
-    n = (140 if pid != "C20" else 70) if tier == "quick" else 2500
+    n = {"C20": 55, "C10": 110}.get(pid, 140) if tier == "quick" else {"C20": 800, "C10": 1500}.get(pid, 2500)
     focus = dict(C01=dict(p_sub=0.15, p_flag=0.2), C10=dict(p_sub=0.2, p_flag=0.55), C20=dict(p_sub=0.5, p_flag=0.2), C17=dict(p_sub=0.15, p_flag=0.2), C02=dict(p_sub=0.1, p_flag=0.2))[pid if pid in ("C01", "C10", "C20", "C17", "C02") else "C01"]
     tmpdir = os.path.join(coqrun.BUILD, "kv_%s" % pid)
     os.makedirs(tmpdir, exist_ok=True)
